@@ -382,7 +382,7 @@ Definition run_case (tag : Z) (args : list Z) : list Z :=
   | 9 => run_c09 args
   | 19 => run_c19 args
   | 17 => run_c17 args
-  | 1 => args      (* C01: implementation-only oracle run; the summary case is echoed *)
+  | 1 => args      (* C01 / C13 / C15 / C16: implementation-only oracle runs; the summary case is echoed *)
   | 3 => run_c03 args
   | 4 => run_c04 args
   | 5 => run_c05 args
